@@ -68,12 +68,10 @@ impl<B: IterManager> BufRef<'_, B> {
     pub(crate) fn set_prod_alive(&mut self, alive: bool) {
         unsafe {
             fence(SeqCst);
-            self.inner.as_ref().set_prod_alive(alive);
-
-            let cond = !self.inner.as_ref().work_alive() && !self.inner.as_ref().cons_alive();
+            let last = self.inner.as_ref().set_prod_alive(alive);
             fence(SeqCst);
 
-            if cond {
+            if last {
                 self.drop();
             }
         }
@@ -82,12 +80,10 @@ impl<B: IterManager> BufRef<'_, B> {
     pub(crate) fn set_work_alive(&mut self, alive: bool) {
         unsafe {
             fence(SeqCst);
-            self.inner.as_ref().set_work_alive(alive);
-
-            let cond = !self.inner.as_ref().prod_alive() && !self.inner.as_ref().cons_alive();
+            let last = self.inner.as_ref().set_work_alive(alive);
             fence(SeqCst);
 
-            if cond {
+            if last {
                 self.drop();
             }
         }
@@ -96,12 +92,10 @@ impl<B: IterManager> BufRef<'_, B> {
     pub(crate) fn set_cons_alive(&mut self, alive: bool) {
         unsafe {
             fence(SeqCst);
-            self.inner.as_ref().set_cons_alive(alive);
-
-            let cond = !self.inner.as_ref().prod_alive() && !self.inner.as_ref().work_alive();
+            let last = self.inner.as_ref().set_cons_alive(alive);
             fence(SeqCst);
 
-            if cond {
+            if last {
                 self.drop();
             }
         }
